@@ -6,8 +6,16 @@ cd "$(dirname "$0")"
 export GOFLAGS=-mod=mod GOPROXY=off GOSUMDB=off GOTOOLCHAIN=local CGO_ENABLED=0
 REPO="${VERIF_REPO:-/repo}"
 mkdir -p .cache evidence replays
+# the Go module cache: where the modules of /repo's go.sum actually are (a restored sandbox may run
+# with another HOME / GOPATH than the one the cache was filled under)
+if [ ! -d "$(go env GOMODCACHE)/github.com/notaryproject" ]; then
+  for c in /root/go/pkg/mod "$HOME/go/pkg/mod" /go/pkg/mod; do
+    if [ -d "$c/github.com/notaryproject" ]; then export GOMODCACHE="$c"; break; fi
+  done
+fi
 (cd extract && go run . -repo "$REPO" -out ../lean/NotationModel/Generated)
-(cd lean && lake build 2>&1 | tail -5)
+props=""; for i in $(seq -w 1 20); do props="$props NotationModel.Props.C$i"; done
+(cd lean && lake build driver NotationModel $props 2>&1 | tail -5; exit ${PIPESTATUS[0]})
 tmp=$(mktemp -d)
 sed "s#^replace github.com/notaryproject/notation-go => .*#replace github.com/notaryproject/notation-go => $REPO#" harness/go.mod > "$tmp/go.mod"
 cp "$REPO/go.sum" "$tmp/go.sum"
